@@ -60,6 +60,23 @@ Section Top.
     head (log (exec_top K P fuel c m)) = Some (ERes RPanicked).
   Proof. intros E. rewrite exec_top_log. cbv zeta. rewrite E. reflexivity. Qed.
 
+  (** [ERes RPanicked] is logged by [exec_top] only, and exactly when the command panicked *)
+  Lemma exec_top_panicked_iff c m :
+    exists k, log (exec_top K P fuel c m) = k ++ log m /\
+              (In (ERes RPanicked) k <-> (run K P fuel (KCmd None c) m).2 = OPanic).
+  Proof.
+    rewrite exec_top_log. cbv zeta.
+    destruct (run_log_ext K P fuel (KCmd None c) m) as (k & -> & Hk).
+    rewrite Forall_forall in Hk.
+    destruct (run K P fuel (KCmd None c) m).2.
+    - exists k. split; [reflexivity|]. split; [intros H; destruct (Hk _ H eq_refl) | discriminate].
+    - exists (ERes RPanicked :: k). split; [reflexivity|]. split; [reflexivity | left; reflexivity].
+    - exists (EBad Abort 0%nat :: k). split; [reflexivity|].
+      split; [intros [H|H]; [discriminate | destruct (Hk _ H eq_refl)] | discriminate].
+    - exists (EBad Fuel 0%nat :: k). split; [reflexivity|].
+      split; [intros [H|H]; [discriminate | destruct (Hk _ H eq_refl)] | discriminate].
+  Qed.
+
   Lemma exec_top_log_mono c m : suffix (log m) (log (exec_top K P fuel c m)).
   Proof.
     rewrite exec_top_log. cbv zeta.
@@ -265,3 +282,13 @@ Section Examples.
       destruct b; try discriminate. destruct o; try discriminate. exact H.
   Qed.
 End Examples.
+
+(** Theorem 1 in readable form *)
+Corollary run_flags_restored K P n c m :
+  Pre K c m ->
+  log_ok K (log (run K P n c m).1) /\
+  ((run K P n c m).2 <> OFuel -> ctl (run K P n c m).1 = target c m).
+Proof.
+  intros Hp. destruct (run_flags K P n c m Hp) as [Hl Hc]. split; [exact Hl|].
+  intros Hf. destruct Hc as [Hc|Hc]; [contradiction | exact Hc].
+Qed.
